@@ -22,13 +22,13 @@ PLAN = {
     "quick": {"configs": ["ext1", "ext0"], "nshards": 10, "nshards_ext0": 6, "timeout": 900},
     "thorough": {"configs": ["ext1", "ext0"], "nshards": 16, "timeout": 3400, "suite": ["ext1"]},
 }
-DECIDING = ["token", "token.hook", "format.whole", "named", "roundtrip", "roundtrip.locale", "partial", "mismatch"]
+DECIDING = ["token", "token.hook", "format.whole", "named", "roundtrip", "roundtrip.locale", "partial", "mismatch", "concurrent"]
 FLOORS = {"quick": {"token": 300000, "format.whole": 30000, "named": 20000, "roundtrip": 30000, "roundtrip.locale": 10000, "partial": 5000,
-                    "mismatch": 10000},
+                    "mismatch": 10000, "concurrent": 10000},
           "thorough": {"token": 3 * 10**6, "format.whole": 300000, "named": 200000, "roundtrip": 300000, "roundtrip.locale": 100000,
                        "partial": 50000, "mismatch": 100000}}
 REQUIRED_HOOKS = ["pendulum.from_format"]      # Formatter._format_token / Formatter.parse hooks add reach (internal calls); tokens are judged at the boundary
-TECHNIQUE = "runtime contract on Formatter._format_token against a per-token reference (strftime + integer arithmetic + the locale's own tables), whole-format and named-format checkers, format->from_format round-trip checker; tokens also judged at the workload boundary; round trips under rotating default locale and week_starts_at configuration (history of configurations)"
+TECHNIQUE = "runtime contract on Formatter._format_token against a per-token reference (strftime + integer arithmetic + the locale's own tables), whole-format and named-format checkers, format->from_format round-trip checker; tokens also judged at the workload boundary; round trips under rotating default locale and week_starts_at configuration (history of configurations); shared objects used by six threads at once (1 us switch interval), every outcome compared with the single-threaded, contract-judged one"
 LEVEL_TEXT = ("every token rendered during the workloads is compared with an independent per-token reference; whole formats built from random "
               "token sequences with separators, [escaped] text and backslash escapes are compared with the concatenated reference; named "
               "helpers against strftime compositions; round trips through from_format for full formats (numeric and localized, 27 locales), "
@@ -218,6 +218,8 @@ def cases(M):
     r = gen.rng(M)
     thorough = M.tier == "thorough"
     n = (60000 if thorough else 6000) // M.nshards
+    if M.shard % 2 == 0:
+        yield {"k": "threads", "n": 3000 if thorough else 1000, "seed": r.randrange(1 << 30)}
     yield {"k": "tokens", "n": n * 3, "seed": r.randrange(1 << 30)}
     yield {"k": "formats", "n": n * 5, "seed": r.randrange(1 << 30)}
     yield {"k": "named", "n": n * 2, "seed": r.randrange(1 << 30)}
@@ -261,6 +263,31 @@ def run(M, c):
     P = M.pendulum
     r = random.Random(c["seed"])
     k = c["k"]
+    if k == "threads":
+        # format() / from_format() go through ONE process-wide Formatter object: six threads render and re-parse different
+        # values, formats and locales at once; every outcome must be the single-threaded one (judged by the ordinary
+        # contracts when the reference pass makes the same calls)
+        from pvmon import conc
+
+        fmts = ["YYYY-MM-DDTHH:mm:ss.SSSSSS Z", "dddd D MMMM YYYY HH:mm:ss ZZ", "Do MMM YY, hh:mm A [at] x", "YYYY DDDD E HH mm ss SSS zz z", "LLLL",
+                "ddd, DD MMM YYYY HH:mm:ss ZZ", "[Q]Q YYYY-MM-DD HH:mm:ss.SS Z"]
+        locs = [None, "en", "fr", "de", "ru", "ja", "tr", "pt_br"]
+        items = []
+        for i in range(c["n"]):
+            x, zk = _value(M, r)
+            items.append((x, fmts[i % len(fmts)], locs[(i // 7) % len(locs)]))
+
+        def one(it):
+            x, fmt, loc = it
+            s_ = x.format(fmt, locale=loc) if loc else x.format(fmt)
+            if fmt == fmts[0]:
+                y = P.from_format(s_, fmt)
+                return (s_, y.isoformat())
+            return (s_,)
+
+        conc.differential(M, items, one, "C08/concurrent", show=lambda it: f"{it[0].isoformat()} {it[1]!r} {it[2]}")
+        M.cls("threads")
+        return
     if k == "tokens":
         for i in range(c["n"]):
             M.progress()
